@@ -833,3 +833,58 @@ Qed.
 Definition ops_lifecycle : list op :=
   [OpAdd 1 1 KAlive (Some 1) 100 10; OpAdd 1 1 KDisposed (Some 2) 101 20; OpAdd 1 1 KAlive (Some 3) 102 30;
    OpAdd 1 2 KAlive (Some 4) 103 40; OpAdd 1 1 KAlive (Some 5) 104 50].
+
+(* pointwise reading of (b): after read every stored sample is either untouched or it is a
+   returned (selected) sample whose sample_state became READ; nothing is added or dropped *)
+Corollary read_changes_only_sample_state r max m hsel :
+  Forall2 (fun s s' => s' = s \/ (s' = mark_read s /\ sel r m hsel s = true))
+          (r_samples r) (r_samples (fst (collect r max m hsel false))).
+Proof.
+  assert (Hrefl : forall l : list sample, Forall2 (fun s s' => s' = s \/ (s' = mark_read s /\ sel r m hsel s = true)) l l).
+  { induction l; constructor; auto. }
+  assert (D : hsel_known r hsel \/ ~ hsel_known r hsel).
+  { unfold hsel_known. destruct hsel as [h|]; [|now left]. destruct (find_inst h (r_insts r)); [left; discriminate|right; intros H; now apply H]. }
+  destruct D as [Hk|Hk].
+  - destruct (read_marks_only r max m hsel Hk) as (l1 & l2 & Hl & _ & E). rewrite E, Hl.
+    apply Forall2_app; [|apply Hrefl]. clear. induction l1 as [|s t IH]; cbn [map]; constructor; [|exact IH].
+    unfold mark_sel. destruct (sel r m hsel s); auto.
+  - rewrite collect_bad_parameter by exact Hk. apply Hrefl.
+Qed.
+
+Lemma combine_app' {A B} (a : list A) : forall (a' : list B) b b',
+  length a = length a' -> combine (a ++ b) (a' ++ b') = combine a a' ++ combine b b'.
+Proof.
+  induction a as [|x t IH]; intros [|y u] b b' H; try discriminate; [reflexivity|].
+  cbn [app combine]. f_equal. apply IH. now injection H.
+Qed.
+
+(* pointwise reading of (c): what remains after take is the old cache with some selected
+   samples dropped (`thinned` without marks), and none is altered *)
+Corollary take_only_drops r max m hsel :
+  exists keep : list bool,
+    length keep = length (r_samples r) /\
+    r_samples (fst (collect r max m hsel true)) = map fst (filter snd (combine (r_samples r) keep)) /\
+    Forall (fun sk => snd sk = false -> sel r m hsel (fst sk) = true) (combine (r_samples r) keep).
+Proof.
+  assert (Hall : forall l : list sample,
+            l = map fst (filter snd (combine l (map (fun _ => true) l))) /\
+            Forall (fun sk : sample * bool => snd sk = false -> sel r m hsel (fst sk) = true) (combine l (map (fun _ => true) l))).
+  { induction l as [|s t [I1 I2]]; cbn [map combine filter snd fst]; [split; [reflexivity|constructor]|].
+    split; [now rewrite <- I1|constructor; [discriminate|exact I2]]. }
+  assert (D : hsel_known r hsel \/ ~ hsel_known r hsel).
+  { unfold hsel_known. destruct hsel as [h|]; [|now left]. destruct (find_inst h (r_insts r)); [left; discriminate|right; intros H; now apply H]. }
+  destruct D as [Hk|Hk].
+  - destruct (take_removes_only r max m hsel Hk) as (l1 & l2 & Hl & _ & E). rewrite E, Hl.
+    exists (map (unsel r m hsel) l1 ++ map (fun _ => true) l2). split; [now rewrite !app_length, !map_length|].
+    assert (H1 : filter (unsel r m hsel) l1 = map fst (filter snd (combine l1 (map (unsel r m hsel) l1))) /\
+                 Forall (fun sk : sample * bool => snd sk = false -> sel r m hsel (fst sk) = true) (combine l1 (map (unsel r m hsel) l1))).
+    { clear. induction l1 as [|s t [I1 I2]]; cbn [map combine filter]; [split; [reflexivity|constructor]|].
+      cbn [snd]. destruct (unsel r m hsel s) eqn:Eu; cbn [map fst snd].
+      - split; [now rewrite I1|constructor; [discriminate|exact I2]].
+      - split; [exact I1|constructor; [intros _; unfold unsel in Eu; now apply negb_false_iff in Eu|exact I2]]. }
+    destruct H1 as [H1 H1']. destruct (Hall l2) as [H2 H2'].
+    rewrite combine_app' by now rewrite map_length. rewrite filter_app, map_app, <- H1, <- H2.
+    split; [reflexivity|apply Forall_app; auto].
+  - rewrite collect_bad_parameter by exact Hk. exists (map (fun _ => true) (r_samples r)).
+    split; [now rewrite map_length|]. apply Hall.
+Qed.
